@@ -391,6 +391,25 @@ func c02Run(c *core.Ctx, args []string) {
 			}
 		}
 	}
+	// (3) the option accessor of a router solicitation: RFC 4861 4.1 - the options follow the 4 reserved bytes
+	if next() {
+		slla := refnet.NDPOption(1, []byte{0x02, 0xaa, 0xbb, 0xcc, 0xdd, 0x01})
+		unk := refnet.NDPOption(14, []byte{1, 2, 3, 4, 5, 6})
+		for name, opts := range map[string][]byte{"slla": slla, "slla+unknown": append(append([]byte(nil), slla...), unk...), "unknown+slla": append(append([]byte(nil), unk...), slla...), "unknown+unknown+slla": append(append(append([]byte(nil), unk...), unk...), slla...), "none": nil} {
+			c.Count("evaluations", 1)
+			msg := append([]byte{133, 0, 0, 0, 0, 0, 0, 0}, opts...)
+			rs := packet.ICMP6RouterSolicitation(msg)
+			got, err := rs.Options()
+			want := []byte(nil)
+			if opts != nil {
+				want = []byte{0x02, 0xaa, 0xbb, 0xcc, 0xdd, 0x01}
+			}
+			if err != nil || !bytes.Equal(got.SourceLLA.MAC, want) {
+				c.Violate("getter-mismatch|ICMP6RouterSolicitation.Options", fmt.Sprintf("router solicitation with options [%s]: Options() gives source link-layer address %x (err %v), the option at offset 8.. says %x", name, []byte(got.SourceLLA.MAC), err, want), c02Replay{Kind: "rsopt", Hex: hex.EncodeToString(msg)})
+			}
+			c.Distinct(msg)
+		}
+	}
 	c.Sample(map[string]any{"kind": "frame", "class": "udp4-ports", "src_port": 443, "dst_port": 53, "expect": "PayloadSSL (443 precedes 53)"}, 8)
 	c.Sample(map[string]any{"kind": "getter", "type": "IP4", "window": "bytes 6-7", "values": "all 65536"}, 8)
 	st.reset()
@@ -411,6 +430,15 @@ func c02Replayer(data []byte) string {
 			c02FrameIn(c, &c01State{}, "replay", whole[:len(in)], tail)
 		} else {
 			c02Frame(c, &c01State{}, "replay", in)
+		}
+	case "rsopt":
+		got, err := packet.ICMP6RouterSolicitation(in).Options()
+		want := []byte(nil)
+		if len(in) > 8 {
+			want = []byte{0x02, 0xaa, 0xbb, 0xcc, 0xdd, 0x01}
+		}
+		if err != nil || !bytes.Equal(got.SourceLLA.MAC, want) {
+			return fmt.Sprintf("getter-mismatch|ICMP6RouterSolicitation.Options: source link-layer address %x (err %v), want %x", []byte(got.SourceLLA.MAC), err, want)
 		}
 	case "getter":
 		for _, spec := range viewSpecs() {
